@@ -136,5 +136,13 @@ def exState : RegState := { kind := .bcn, params := exParams, nextId := 2, regs 
 example : (exState.record 10 0 1 0 { key := 0, h0 := "abc", subTime := 77 } (.ok 0 false)).toOption.map (·.2) = some 1 := by
   decide
 
+/-- the byte limit of every submitted hash in the model is the one the source compares with — regenerated from
+`ValidateBasic` (msgs.go) and the message servers of both modules on every run -/
+theorem c07_limits_from_source :
+    ["wrkchain.msgs.BlockHash.>", "wrkchain.msgs.ParentHash.>", "wrkchain.msgs.Hash1.>", "wrkchain.msgs.Hash2.>", "wrkchain.msgs.Hash3.>",
+     "wrkchain.msg_server.BlockHash.>", "wrkchain.msg_server.ParentHash.>", "wrkchain.msg_server.Hash1.>", "wrkchain.msg_server.Hash2.>",
+     "wrkchain.msg_server.Hash3.>", "beacon.msgs.Hash.>", "beacon.msg_server.Hash.>"].all
+      (fun k => decide (AL.find? Facts.limits k = some maxHashLen)) = true := by decide
+
 end C07
 end Mainchain
